@@ -75,7 +75,7 @@ type Attr struct {
 // Case is one element inside a small wrapper.
 type Case struct {
 	Tag   string            `json:"tag"`             // p, span, div, a, input, template
-	Place string            `json:"place,omitempty"` // "" (inside <div>), root, slot, slot#, tplfor, sloop, sloop#, stwice, sdloop, sdplain
+	Place string            `json:"place,omitempty"` // "" (inside <div>), root, pre (inside <pre>), slot, slot#, tplfor, sloop, sloop#, stwice, sdloop, sdplain
 	Attrs []Attr            `json:"attrs"`
 	Data  map[string]vals.V `json:"data,omitempty"`
 }
@@ -164,7 +164,10 @@ func attrSrc(a Attr) string {
 	q := func(n, v string) string { return n + `="` + v + `"` }
 	// literal text of static / interpolated / bracketed values: & and " are written as references
 	esc := func(v string) string {
-		return strings.ReplaceAll(strings.ReplaceAll(v, "&", "&amp;"), `"`, "&quot;")
+		// a carriage return is written as a reference: a raw CR would be turned into LF by the
+		// template parser's input pre-processing, the reference is part of the value
+		v = strings.ReplaceAll(strings.ReplaceAll(v, "&", "&amp;"), `"`, "&quot;")
+		return strings.ReplaceAll(v, "\r", "&#13;")
 	}
 	switch a.Kind {
 	case "static":
@@ -229,6 +232,8 @@ func (c Case) source() (page string, files map[string]string) {
 		return el, nil
 	case "tplfor":
 		return `<div><template v-for="` + forVar + ` in ` + forList + `">` + el + `</template></div>`, nil
+	case "pre":
+		return `<div><pre>` + el + `</pre></div>`, nil
 	case "sloop", "sloop#", "stwice", "sdloop", "sdplain":
 		slotAttrs := ` name="hdr" :on="row.on" :v="row.v"`
 		open, shut := `<template v-slot:hdr="`+slotVar+`">`, `</template>`
